@@ -16,6 +16,7 @@ everything is for `skip_invalid = True`.
 * `C16_fileseq`, `C16_fileseq_rows`, `C16_fileseq_err` — `_get_fingerprints_from_file_seq`
 -/
 import BBProofs.FileSeq
+import BBProofs.GenEq11
 
 namespace BB.Files
 open BB BB.MR
@@ -227,5 +228,45 @@ example :
   have h := C16_concat fp ["C", "?", "N"] 2 (by decide)
   have e : fpsFromSmiles fp ["C", "?", "N"] = ([[true], [false]], [1]) := by decide
   exact ⟨by rw [h.1, e], by rw [h.2.2.2, e]⟩
+
+/-! ### the code: `parse_num_per_batch` (nested in `cli._fps_from_smiles`) as translated from `/repo` on this run -/
+
+/-- code: the batch size, the number of parts and the pad width the command computes ARE the model's `numPerBatch`
+(fewer than 2^53 SMILES; the float division `math.ceil(smiles_num / parts)` of the code is the exact ceiling there) -/
+theorem C16_code_num_per_batch (expf : Rat → Rat) (total : Nat) (parts maxPer : Option Nat) (ht : total < 2 ^ 53)
+    (hp : ∀ p, parts = some p → 0 < p) (hm : ∀ m, maxPer = some m → 0 < m) :
+    BBGen.parse_num_per_batch expf (PV.int total) (onat parts) (onat maxPer)
+      = match numPerBatch total parts maxPer with
+        | none => [PV.err "ValueError"]
+        | some (p, per, dg) => [PV.int p, PV.int per, onat dg] :=
+  gen_num_per_batch expf total parts maxPer ht hp hm
+
+/-- code: … hence, when a split is requested, what the code returns is `[p, per, len(str(p))]` with at most `p ≤ 10 ^ digits`
+batches for ANY input of `total` elements — the zero-padded part names sort in part order (`C16_digits` for the code) -/
+theorem C16_code_digits {α : Type} (expf : Rat → Rat) (total : Nat) (parts maxPer : Option Nat) (ht : total < 2 ^ 53)
+    (hp : ∀ p, parts = some p → 0 < p) (hm : ∀ m, maxPer = some m → 0 < m) (hreq : parts.isSome ∨ maxPer.isSome)
+    (hex : ¬ (parts.isSome ∧ maxPer.isSome)) (xs : List α) (hx : xs.length = total) :
+    ∃ p per : Nat, BBGen.parse_num_per_batch expf (PV.int total) (onat parts) (onat maxPer)
+        = [PV.int p, PV.int per, PV.int (toString p).length] ∧
+      (batched per xs).length ≤ p ∧ p ≤ 10 ^ (toString p).length := by
+  rw [gen_num_per_batch expf total parts maxPer ht hp hm]
+  cases hn : numPerBatch total parts maxPer with
+  | none =>
+    exfalso
+    cases parts <;> cases maxPer <;> simp_all [numPerBatch]
+  | some r =>
+    obtain ⟨p, per, dg⟩ := r
+    obtain ⟨hdg, hb, hpw⟩ := C16_digits total parts maxPer p per dg hn hreq xs hx
+    subst hdg
+    exact ⟨p, per, rfl, hb, hpw⟩
+
+/-- both options: the code raises `ValueError` (the command turns it into an abort) -/
+theorem C16_code_exclusive (expf : Rat → Rat) (total p m : Nat) :
+    BBGen.parse_num_per_batch expf (PV.int total) (PV.int p) (PV.int m) = [PV.err "ValueError"] := by
+  simp [BBGen.parse_num_per_batch, PV.isNone]
+
+/-- premises satisfiable: 17 SMILES in 9 parts — batches of 2, one digit -/
+example : BBGen.parse_num_per_batch (fun x => x) (PV.int 17) (PV.int 9) PV.pynone = [PV.int 9, PV.int 2, PV.int 1] := by
+  decide +kernel
 
 end BB.Files
